@@ -23,6 +23,11 @@ C13_LENS = {"A": 40, "B": 100, "regulatorR": 40}      # profile lengths of the C
 
 
 PREDICATES = {
+    # sideloaded areas whose detail names are also names of qualifiers antiSMASH writes for the area itself
+    "C10-F4": lambda case, clause: case.get("sideload") == "reserved-detail-keys" and clause in (
+        "genbank-description-differs", "genbank-not-a-fixed-point", "json-description-differs", "json-not-a-fixed-point", "json-areas-differ"),
+    "C12-F5": lambda case, clause: case.get("sideload") == "reserved-detail-keys" and clause in ("subregions-differ", "protoclusters-differ",
+                                                                                                  "feature-missing-or-shifted", "feature-unexpected"),
     # a pool worker that is lost (killed, or left through SystemExit) while holding a task
     "C18-F1": lambda case, clause: case.get("kind") == "lost-worker" and case.get("position", -1) >= 0
     and clause == "worker-lost-call-never-returns",
